@@ -42,7 +42,12 @@ func constOf(w *core.World, r *core.Report, pkg, name string) (int64, bool) {
 // opcodeHandlers maps opcode constants to the handler invoked for them in (*Vm).Run's dispatch:
 // the first static callee in the block entered on the true edge of `op == CONST`.
 func opcodeHandlers(w *core.World, r *core.Report) (map[int64]*ssa.Function, map[int64]*ssa.Call, *ssa.Function) {
-	run := anchor(w, r, "vm", "(*Vm).Run")
+	var run *ssa.Function
+	if r != nil {
+		run = anchor(w, r, "vm", "(*Vm).Run")
+	} else {
+		run = w.Func("vm", "(*Vm).Run")
+	}
 	if run == nil {
 		return nil, nil, nil
 	}
@@ -68,7 +73,9 @@ func opcodeHandlers(w *core.World, r *core.Report) (map[int64]*ssa.Function, map
 						if f := core.StaticCallee(call); f != nil && w.InLib(f) && core.PkgOf(f) == "vm" {
 							hs[c] = f
 							calls[c] = call
-							r.Touch(core.QName(f))
+							if r != nil {
+								r.Touch(core.QName(f))
+							}
 							break
 						}
 					}
